@@ -111,6 +111,8 @@ pub fn cmp_pair<const N: usize, const M: usize>(ctx: &mut Ctx) {
                     let route_a = (sa % 3) as u8;
                     let route_b = ((sb + 1) % 3) as u8;
                     for va in &ca {
+                        // the runaway guard counts creations per epoch: one epoch per left operand
+                        ledger_set_epoch(ledger_epoch().wrapping_add(1));
                         let ha = mk::<N>(route_a, sa, va, &mut vc);
                         let a = ha.buf_ref();
                         // hash of A under both hashers, compared with an equal buffer in another layout
